@@ -30,16 +30,16 @@ type C18Case struct {
 	// Disr: the disruptive action of the blocking rule: "" / deny | redirect | drop
 	Disr string `json:"disruptive,omitempty"`
 	// Info103: the handler sends an informational 103 response before its final status (real server only)
-	Info103    bool   `json:"info_103,omitempty"`
-	ReqAccess  bool   `json:"req_body_access"`
-	RespAccess bool   `json:"resp_body_access"`
+	Info103    bool `json:"info_103,omitempty"`
+	ReqAccess  bool `json:"req_body_access"`
+	RespAccess bool `json:"resp_body_access"`
 	// CtlRespAccess: response body access is configured Off and switched on for the transaction by a rule of this
 	// phase (1-3) with ctl:responseBodyAccess=On; 0: no such rule
-	CtlRespAccess int `json:"ctl_resp_body_access,omitempty"`
-	ReqLimit   int    `json:"req_limit"`
-	ReqAction  string `json:"req_limit_action"`
-	RespLimit  int    `json:"resp_limit"`
-	RespAction string `json:"resp_limit_action"`
+	CtlRespAccess int    `json:"ctl_resp_body_access,omitempty"`
+	ReqLimit      int    `json:"req_limit"`
+	ReqAction     string `json:"req_limit_action"`
+	RespLimit     int    `json:"resp_limit"`
+	RespAction    string `json:"resp_limit_action"`
 	// request
 	Block     bool `json:"block_header"`
 	BodyLen   int  `json:"body_len"`
